@@ -120,6 +120,9 @@ class St:
         if n is not None:
             # len(x) == 0, len(x) > 0 ... speak about the emptiness of x
             term, val = n[0], (val if n[1] else not val)
+        if isinstance(term, tuple) and term[0] == 'call' and term[1] == 'bool' and len(term[2]) == 1 and not term[3]:
+            # bool(x) is true exactly when x is
+            return self.assume(term[2][0], val)
         cur = truth(term, self)
         if cur is not None:
             return self if cur == val else None
@@ -137,6 +140,24 @@ class St:
                     r = True if any(p is True for p in parts) else (False if all(p is False for p in parts) else None)
                 if r is not None and r != v:
                     return None
+        # the emptiness of a filtered collection speaks about all its candidates:
+        #   not [x for x in S if c(x)]   <=>   for all x in S: not c(x)
+        if term[0] == 'comp' and len(term) == 4 and len(term[3]) == 1 and term[3][0][2] \
+                and term[2] == ('elem', term[3][0][1], term[3][0][0]):
+            key, it, conds = term[3][0]
+            lits = []
+            for c in conds:
+                pol = True
+                while c[0] == 'unop' and c[1] == 'not':
+                    c, pol = c[2], not pol
+                lits.append((T.mk(c), pol))
+            if val is False:
+                d = ('forall', it, key, frozenset(frozenset({(c, not pol)}) for c, pol in lits))
+            else:
+                d = ('exists', it, key, frozenset({frozenset(lits)}))
+            f2 = dict(st.facts)
+            f2[T.mk(d)] = True
+            st = st._new(facts=f2)
         # decompose conjunctions / disjunctions that are now decided
         if term[0] == 'boolop':
             if term[1] == 'and' and val:
@@ -186,6 +207,8 @@ def truth(term, st):
         return None if v is None else (not v)
     if k in ('coro', 'closure', 'func', 'class', 'mod', 'builtin', 'task'):
         return True
+    if k == 'call' and term[1] == 'bool' and len(term[2]) == 1 and not term[3]:
+        return truth(term[2][0], st)
     if k == 'union':
         if not term[1]:
             return False
@@ -205,6 +228,11 @@ def truth(term, st):
             if v is None:
                 return None
             return v if op == 'is' else (not v)
+        if (l[0] == 'pos' and r == ('const', 0)) or (r[0] == 'pos' and l == ('const', 0)):
+            # a counter that has been incremented at least once, compared with zero
+            if l[0] != 'pos':
+                op = {'<': '>', '>': '<', '<=': '>=', '>=': '<='}.get(op, op)
+            return {'==': False, '!=': True, '>': True, '>=': True, '<': False, '<=': False}.get(op)
         if op in ('==', '!=') and l[0] == 'const' and r[0] == 'const':
             v = (l[1] == r[1])
             return v if op == '==' else (not v)
@@ -399,6 +427,10 @@ class Analysis:
 
     def iter_may_raise(self, ip, it):
         return False
+
+    def on_while_head(self, ip, ctx, st, fr):
+        """a while loop is about to evaluate its test (first entry and every later iteration)"""
+        return st
 
     def on_back_edge(self, ip, st):
         return st
@@ -877,6 +909,13 @@ class Interp:
         y = st.assume(t, val)
         if y is None:
             return None
+        # the analyses see the tested value itself: `not`, `bool(...)` wrappers removed
+        while isinstance(t, tuple) and ((t[:2] == ('unop', 'not')) or
+                                        (t[0] == 'call' and t[1] == 'bool' and len(t[2]) == 1 and not t[3])):
+            if t[0] == 'unop':
+                t, val = t[2], not val
+            else:
+                t = t[2][0]
         y = self.an.on_branch(self, node, t, val, y, fr)
         if y is None:
             return None
@@ -900,6 +939,7 @@ class Interp:
             n += 1
             if n > MAX_STATES:
                 raise AnalysisError("state explosion in loop at %s" % self.where(s, fr))
+            cur = self.an.on_while_head(self, ctx, cur, fr)
             for x, t in self.eval(s.test, cur, fr, o):
                 y = self.branch(s.test, t, False, x, fr)
                 if y is not None:
@@ -1832,8 +1872,56 @@ class Interp:
                 res.append((y, ('unk', 'sent')))
         return res
 
+    def _yield_loop(self, e):
+        """`yield from (elt for x in it if c)` and `yield from filter(f, it)` are the loops
+        `for x in it: if c: yield elt` / `for x in it: if f(x): yield x`; the equivalent statement
+        is built once per node, so that the rules see a yield under its path conditions"""
+        cache = self.__dict__.setdefault('_yl_cache', {})
+        if id(e) in cache:
+            return cache[id(e)]
+        v = e.value
+        synth = None
+        if isinstance(v, (ast.GeneratorExp, ast.ListComp, ast.SetComp)):
+            body = [ast.Expr(value=ast.Yield(value=v.elt))]
+            for g in reversed(v.generators):
+                if g.is_async:
+                    body = None
+                    break
+                if g.ifs:
+                    test = g.ifs[0] if len(g.ifs) == 1 else ast.BoolOp(op=ast.And(), values=list(g.ifs))
+                    body = [ast.If(test=test, body=body, orelse=[])]
+                body = [ast.For(target=g.target, iter=g.iter, body=body, orelse=[])]
+            synth = body[0] if body else None
+        elif isinstance(v, ast.Call) and isinstance(v.func, ast.Name) and v.func.id == 'filter' \
+                and len(v.args) == 2 and not v.keywords and not isinstance(v.args[0], ast.Constant):
+            var = '_filtered_%d_%d' % (v.lineno, v.col_offset)
+            test = ast.Call(func=v.args[0], args=[ast.Name(id=var, ctx=ast.Load())], keywords=[])
+            synth = ast.For(target=ast.Name(id=var, ctx=ast.Store()), iter=v.args[1], orelse=[],
+                            body=[ast.If(test=test, orelse=[],
+                                         body=[ast.Expr(value=ast.Yield(value=ast.Name(id=var, ctx=ast.Load())))])])
+        if synth is not None:
+            for n in ast.walk(synth):
+                if not hasattr(n, 'lineno'):
+                    ast.copy_location(n, v)
+                for c in ast.iter_child_nodes(n):
+                    if not hasattr(c, '_parent') or isinstance(c, (ast.For, ast.If, ast.Expr, ast.Yield)):
+                        try:
+                            c._parent = n
+                        except AttributeError:
+                            pass
+            synth._parent = getattr(e, '_parent', None)
+            ast.fix_missing_locations(synth)
+        cache[id(e)] = synth
+        return synth
+
     def e_YieldFrom(self, e, st, fr, o):
         res = []
+        synth = self._yield_loop(e)
+        if synth is not None:
+            r = self.x_For(synth, st, fr)
+            o.exc += r.exc
+            o.ret += r.ret
+            return [(y, ('unk', 'yieldfrom')) for y in r.nxt]
         for x, t in self.eval(e.value, st, fr, o):
             if t[0] == 'gen':
                 f = self.prog.funcs.get(t[1])
@@ -1854,6 +1942,15 @@ class Interp:
         for x, ts in self.eval_seq([e.func] + list(e.args) + kwnodes, st, fr, o):
             fterm = ts[0]
             args = tuple(ts[1:1 + len(e.args)])
+            if any(a[0] == 'star' and a[1][0] in ('tuple', 'list') for a in args):
+                # f(*(a, b)) is f(a, b): a known argument tuple is spliced (varargs handed on by a helper)
+                flat = []
+                for a in args:
+                    if a[0] == 'star' and a[1][0] in ('tuple', 'list'):
+                        flat.extend(a[1][1])
+                    else:
+                        flat.append(a)
+                args = tuple(flat)
             kws = tuple((k.arg or '**', t) for k, t in zip(e.keywords, ts[1 + len(e.args):]))
             res += self.call(e, fterm, args, kws, x, fr, o)
         return res
@@ -2085,11 +2182,29 @@ class Interp:
         r = self.exec_block(f.node.body, [x], nfr)
         res = []
         entry_facts = st.facts
+        # a local collection handed to the callee and mutated there (`def step(self, acc): acc.add(x)`) is the
+        # caller's object: what the callee added is copied back into the caller's variable
+        outs = []
+        call_args = node.args if isinstance(node, ast.Call) else None
+        if isinstance(node, ast.Await) and isinstance(node.value, ast.Call):
+            call_args = node.value.args
+        if call_args and bindings is None:
+            ps = list(f.params)
+            if f.cls is not None and not f.is_static and recv != 'explicit':
+                ps = ps[1:]
+            for pn, a in zip(ps, call_args):
+                if isinstance(a, ast.Name) and st.var(fr.fid, a.id) is not None and a.id != 'self' \
+                        and _mutates_param(f, pn):
+                    outs.append((pn, a.id))
 
         def leave(y):
             # facts learned inside the callee are local to it, except fold
             # summaries (forall/exists) and what the analysis asks to keep;
             # facts the callee invalidated stay invalidated
+            for pn, cn in outs:
+                v = y.var(fid, pn)
+                if v is not None and v != y.var(fr.fid, cn):
+                    y = y.with_var(fr.fid, cn, v)
             y = y.drop_frame(fid)
             keep = {}
             for k, v in y.facts.items():
@@ -2241,6 +2356,23 @@ def _may_stop_early(loop):
             continue
         stack.extend(ast.iter_child_nodes(n))
     return False
+
+
+def _mutates_param(f, pname):
+    """f mutates the collection it receives as `pname` in place (method calls only: never rebinds the name)"""
+    c = f.__dict__.setdefault('_mutp', {}) if hasattr(f, '__dict__') else {}
+    if pname in c:
+        return c[pname]
+    mut = reb = False
+    for n in ast.walk(f.node):
+        if isinstance(n, ast.Name) and n.id == pname and isinstance(n.ctx, (ast.Store, ast.Del)):
+            reb = True
+        if isinstance(n, ast.Call) and isinstance(n.func, ast.Attribute) and isinstance(n.func.value, ast.Name) \
+                and n.func.value.id == pname and (n.func.attr in ADDERS or n.func.attr in EXTENDERS
+                                                  or n.func.attr in SCRAMBLERS):
+            mut = True
+    c[pname] = mut and not reb
+    return c[pname]
 
 
 def _is_collection_method(m):
